@@ -29,6 +29,10 @@ func main() {
 	switch os.Args[1] {
 	case "bt":
 		cmdBt(os.Args[2:])
+	case "btconc":
+		cmdBtConc(os.Args[2:])
+	case "lock":
+		cmdLock(os.Args[2:])
 	case "gcs":
 		cmdGcs(os.Args[2:])
 	default:
